@@ -879,6 +879,8 @@ SCOPES = {
     "matrices": ("8 data types x 6 row-length shapes (3x4, 1x4, 3x1, ragged, a taxon absent, empty) x {plain, decorated: labels, "
                  "annotations on matrix/sequences/cells/subsets, character subsets and types} x 9 routes; non-trivial = >= 2 non-empty rows", True),
     "namespaces": ("namespaces of 0,1,3,5 taxa x with/without a removed taxon x {plain, decorated} x 6 routes; non-trivial = >= 3 taxa", True),
+    "annotation-copies": ("`copy_annotations_from` with its default mapping on 7 annotable classes x 0-2 plain annotations beside one bound to `label`: "
+                          "the copy's bound annotation follows the copy, annotation objects are new, the source keeps its own", True),
     "chains": ("copies of copies: subject produced by one of 5-6 first routes, then every route again (trees, tree lists, 3 matrix types, "
                "namespaces)", True),
 }
@@ -906,11 +908,53 @@ def t2(ctx):
                 continue
             seen.add(clause)
             ctx.fail(monitor(kind, job["route"], clause, job["recipe"]), {"key": key, "job": job, "scope": scope}, detail="%s: %s" % (key, det))
+    for clsname in ANNOT_OWNERS:
+        for nplain in (0, 1, 2):
+            key = "annotation-copy|%s|plain=%d" % (clsname, nplain)
+            ctx.case("annotation-copies", key, nontrivial=True, sample=key)
+            for clause, det in eval_annotation_copy(clsname, nplain):
+                ctx.fail("%s.copy_annotations_from.%s" % (clsname, clause), {"key": key, "job": {"annot_copy": clsname, "nplain": nplain}, "scope": "annotation-copies"},
+                         detail="%s: %s" % (key, det))
+
+
+ANNOT_OWNERS = ("Tree", "TreeList", "DnaCharacterMatrix", "TaxonNamespace", "Taxon", "Node", "Edge")
+
+
+def eval_annotation_copy(clsname, nplain):
+    """`dst.copy_annotations_from(src)` with the documented default mapping (references to the source become references to the copy):
+    every attribute-bound annotation of the copy follows the COPY's attribute, the annotation objects are new ones, the source keeps its own"""
+    cls = getattr(dendropy, clsname)
+    src, dst = cls(), cls()
+    src.label = "source"
+    dst.label = "copy"
+    for i in range(nplain):
+        src.annotations.add_new("plain%d" % i, [i])
+    src.annotations.add_bound_attribute("label")
+    before = [(a.name, a.is_attribute) for a in src.annotations]
+    dst.copy_annotations_from(src)
+    out = []
+    src.label = "source-changed"
+    dst.label = "copy-changed"
+    got = sorted((a.name, a.value if a.is_attribute else tuple(a.value)) for a in dst.annotations)
+    want = sorted([("plain%d" % i, (i,)) for i in range(nplain)] + [("label", "copy-changed")])
+    if got != want:
+        out.append(["bound-follows-copy", "after relabelling both, the copy's annotations read %r, required %r" % (got, want)])
+    if any(a is b for a in src.annotations for b in dst.annotations):
+        out.append(["separation", "an Annotation object is shared between source and copy"])
+    srcv = sorted((a.name, a.value if a.is_attribute else tuple(a.value)) for a in src.annotations)
+    if [(a.name, a.is_attribute) for a in src.annotations] != before or ("label", "source-changed") not in srcv:
+        out.append(["source-unchanged", "the source's annotations read %r" % (srcv,)])
+    return out
 
 
 def replay(ctx, rec):
     w = rec["witness"]
     job = w["job"]
+    if "annot_copy" in job:
+        res = eval_annotation_copy(job["annot_copy"], job["nplain"])
+        for clause, det in res:
+            print("  replay: %s.copy_annotations_from.%s: %s" % (job["annot_copy"], clause, det))
+        return not any("%s.copy_annotations_from.%s" % (job["annot_copy"], c) == rec["obligation"] for c, _ in res)
     res = eval_job(job)
     kind = job["recipe"]["kind"]
     hit = False
